@@ -44,11 +44,9 @@ DoubleLongUnsigned = construct.Int32ub
 
 VisibleString = construct.PascalString(construct.Int8ub, "ASCII")
 
-OctedStringText = construct.FocusedSeq(
-    "value",
-    "length" / construct.Int8ub,
-    "value" / construct.PaddedString(construct.this.length, "ASCII"),
-)
+# Text in an octet-string: length octet followed by that many ASCII characters, all of them
+# part of the text (PaddedString would strip trailing NUL characters).
+OctedStringText = construct.PascalString(construct.Int8ub, "ASCII")
 
 ObisCode = construct.ExprAdapter(
     construct.Int8ub[6],
